@@ -104,3 +104,15 @@ Example C05_ex :
   /\ opt_pt_eqb (geometry_point (TimeInterval 1 3) VCenter HLeft) (Some (1, 2500000)) = true.
 Proof. vm_compute. repeat split. Qed.
 Print Assumptions C05_ex.
+
+(* ---- compute_geometric_features as READ FROM THE SOURCE (Gen/Source.v is regenerated from
+   soundevent/geometry/features.py on every run: the nine per-type functions and the dispatch table
+   _COMPUTE_FEATURES): it returns exactly the model's feature list for every geometry, so the theorems
+   above about [features] are theorems about the code as written. ---- *)
+From SE Require Gen.Source Gen.SrcFeatures.
+From SE Require Import Gen.Prelude.
+
+Theorem C05_src_features : forall g,
+  Source.compute_geometric_features g = match features g with Some fs => Ok fs | None => Err EOther end.
+Proof. exact SrcFeatures.src_features. Qed.
+Print Assumptions C05_src_features.
